@@ -35,8 +35,11 @@ REGIONS = {"get_value-of-a-sub-specification-after-pastify": region_pastified_su
 def check_case(ctx, case, m):
     mon = case["monitor"]
     rep = M.rep_of(case)
-    got = M.run_discrete(case, mon, modular=True, read_names=True)
+    got = M.run_discrete(case, mon, modular=True, read_names=True, pre=case.get("pre"))
     rep["impl"] = got
+    rep["pre"] = case.get("pre")
+    if case.get("pre"):
+        ctx.count("after-reset")
     if got[0] != "ok":
         return Violation("%s monitor: evaluate/update/get_value raised %r: %s" % (mon, got[1:], rep["spec"].replace("\n", " ")),
                          rep, stream="getv"), None
@@ -79,6 +82,9 @@ def explore(ctx, rng, count):
     for _ in range(count):
         mon = rng.choice(["offd", "offd", "ond", "ond", "past"])
         c = M.gen_case(rng, ALLOW[mon], mon)
+        if mon != "offd" and rng.random() < 0.3:
+            # the monitor is reused: a history, reset(), then the trace; every name must read like a fresh monitor's
+            c["pre"] = F.gen_trace(rng, c["vars"], rng.randint(1, 6))
         if disc.known_region(ctx, c, REGIONS):
             ctx.skipped_known += 1
             continue
@@ -107,6 +113,8 @@ def replay(ctx, obj):
         from .. import dense
         return dense.replay_getvalue(ctx, obj)
     c = M.case_of_rep(obj)
+    if obj.get("pre"):
+        c["pre"] = {k: [float(x) for x in v] for k, v in obj["pre"].items()}
     m = M.model_prog([c])[0] if c["monitor"] == "ond" else None
     v, d = check_case(Ctx(ctx.id, ctx.tier, ctx.seed), c, m)
     return (v is None), (v.what if v else "get_value agrees with the stand-alone specifications on the replayed case")
